@@ -146,10 +146,10 @@ impl MMRProof {
 }
 // headers.map(f).collect::<Result<Vec<_>, String>>(): all f-values if every one is Ok, else the first Err (assumed std semantics)
 #[verifier::external_body]
-pub fn vf_try_map<'a, T, B, F: Fn(&'a T) -> Result<B, String>>(it: std::slice::Iter<'a, T>, f: F) -> (r: Result<Vec<B>, String>)
-    requires forall|i: int| 0 <= i < it.remaining().len() ==> call_requires(f, (#[trigger] it.remaining()[i],)),
+pub fn vf_try_map<'a, T, B, F: Fn(&'a T) -> Result<B, String>>(v: &'a [T], f: F) -> (r: Result<Vec<B>, String>)
+    requires forall|i: int| 0 <= i < v@.len() ==> call_requires(f, (&#[trigger] v@[i],)),
     ensures
-        r is Ok ==> r->Ok_0@.len() == it.remaining().len()
-            && forall|i: int| 0 <= i < it.remaining().len() ==> call_ensures(f, (#[trigger] it.remaining()[i],), Ok::<B, String>(r->Ok_0@[i])),
+        r is Ok ==> r->Ok_0@.len() == v@.len()
+            && forall|i: int| 0 <= i < v@.len() ==> call_ensures(f, (&#[trigger] v@[i],), Ok::<B, String>(r->Ok_0@[i])),
 { unimplemented!() }
 // ===== end =====
